@@ -4,6 +4,7 @@ import (
 	"fmt"
 	"go/ast"
 	"go/constant"
+	"go/token"
 	"go/types"
 	"strings"
 
@@ -111,147 +112,226 @@ R20.6 exit status: ErrNoNewVersion maps to the distinct non-zero code, any other
 	}
 	c.Check(okBind && okFlow && tagKey != "", "R20.2", "NewTagCmd|dry-run-binding", r.Pos(ntc.Pos()), "flag bound under "+tagKey+" on the instance the Tagger is unmarshalled from", "the dry-run flag does not reach Tagger.DryRun: "+bindDetail+"; it must be bound under the Tagger's mapstructure key on the viper instance passed to NewTagger")
 	// ---- R20.3
-	for _, f := range p.Syntax {
-		for _, d := range f.Decls {
-			fd, ok := d.(*ast.FuncDecl)
-			if !ok || fd.Body == nil {
-				continue
+	// Every call of a mutating go-git API must be dominated by three facts: DryRun tested false, the
+	// requested version strictly greater than the largest existing one, and a clean work tree. A fact
+	// holds at a call site when every enumerated path of the enclosing function (or of the innermost loop
+	// body) through the site has established it before, or else when it holds at every call site of the
+	// enclosing function (bounded), so the gates may sit in the function itself or in any of its callers.
+	ct := FuncDecl(p, "Tagger.createTag")
+	decls := pkgFuncDecls(p)
+	declOf := pkgFuncs(p)
+	pathsOf := map[*ast.FuncDecl][]*dtPath{}
+	enum := func(fd *ast.FuncDecl) []*dtPath {
+		if ps, ok := pathsOf[fd]; ok {
+			return ps
+		}
+		d := newDTP(p, fd)
+		d.paths = nil
+		d.stmts(seedEnv(d, fd), fd.Body.List, func(q *dtPath) { d.finish(q, "end") })
+		pathsOf[fd] = d.paths
+		return d.paths
+	}
+	type fact struct {
+		name, ok, bad string
+		holds         func(a dtAtom) bool
+	}
+	const gtM = "<(github.com/Masterminds/semver/v3.Version)."
+	isRequested := func(x string) bool { return x == "github.com/Masterminds/semver/v3.NewVersion(RECV.Version)#0" }
+	isPrevious := func(y string) bool {
+		return strings.HasPrefix(y, "RECV.largestTagSemver<") && strings.HasSuffix(y, "#0") && strings.Contains(y, "github.com/Masterminds/semver/v3.NewVersion(RECV.Version)#0")
+	}
+	// strictlyGreater: does the atom (with its truth value) say requested > previous?
+	strictlyGreater := func(a dtAtom) bool {
+		e := a.Expr
+		for _, m := range []struct {
+			method string
+			swap   bool
+		}{{"GreaterThan", false}, {"LessThan", true}} {
+			if i := strings.Index(e, "."+m.method+gtM+m.method+">("); i >= 0 && strings.HasSuffix(e, ")") {
+				x, y := e[:i], e[i+len("."+m.method+gtM+m.method+">("):len(e)-1]
+				if m.swap {
+					x, y = y, x
+				}
+				return a.Val && isRequested(x) && isPrevious(y)
 			}
-			ast.Inspect(fd.Body, func(n ast.Node) bool {
-				call, ok := n.(*ast.CallExpr)
-				if !ok {
-					return true
+		}
+		for _, cmp := range []struct {
+			suffix string
+			val    bool
+		}{{" > 0", true}, {" == 1", true}, {" >= 1", true}, {" <= 0", false}, {" < 1", false}} {
+			if strings.HasSuffix(e, cmp.suffix) {
+				c0 := strings.TrimSuffix(e, cmp.suffix)
+				if i := strings.Index(c0, ".Compare"+gtM+"Compare>("); i >= 0 && strings.HasSuffix(c0, ")") {
+					x, y := c0[:i], c0[i+len(".Compare"+gtM+"Compare>("):len(c0)-1]
+					return a.Val == cmp.val && isRequested(x) && isPrevious(y)
 				}
-				fn := calleeFunc(info, call)
-				if fn == nil || fn.Pkg() == nil || !strings.HasPrefix(fn.Pkg().Path(), "github.com/go-git/go-git") || !gitMutators[fn.Name()] {
-					return true
+			}
+		}
+		return false
+	}
+	facts := []fact{
+		{"dry-run", "only when DryRun was tested false", "can run although DryRun is true (no test of DryRun == false dominates the call): a dry run would change the repository",
+			func(a dtAtom) bool {
+				return !a.Val && (a.Expr == "RECV.DryRun" || strings.HasPrefix(a.Expr, "ARG") && strings.HasSuffix(a.Expr, ".DryRun") && !strings.ContainsAny(strings.TrimSuffix(a.Expr, ".DryRun"), ".( "))
+			}},
+		{"strictly-greater", "only when requested.GreaterThan(largest existing tag of its major)", "can run without the requested version being strictly greater than the largest existing tag of its major: an older or equal VERSION would move published tags", strictlyGreater},
+		{"clean-tree", "only when worktree.Status().IsClean()", "can run without go-git's Status.IsClean() having returned true (staged-only changes, for instance, must also block tagging)",
+			func(a dtAtom) bool {
+				return a.Val && strings.HasSuffix(a.Expr, ".IsClean<(github.com/go-git/go-git/v5.Status).IsClean>()") && strings.Contains(a.Expr, ".Worktree<(github.com/go-git/go-git/v5.Repository).Worktree>()#0.Status<")
+			}},
+	}
+	enclosing := func(pos token.Pos) *ast.FuncDecl {
+		for _, fd := range decls {
+			if fd.Body.Pos() <= pos && pos < fd.Body.End() {
+				return fd
+			}
+		}
+		return nil
+	}
+	throughSite := func(paths []*dtPath, pos token.Pos, f fact) (through int, all bool) {
+		all = true
+		for _, q := range paths {
+			for _, call := range q.Calls {
+				if call.Pos != pos {
+					continue
 				}
-				sig := fn.Type().(*types.Signature)
-				if sig.Recv() == nil {
-					return true
+				through++
+				est := false
+				for _, a := range q.Atoms {
+					if a.Step <= call.Step && f.holds(a) {
+						est = true
+					}
 				}
-				key := "mutator|" + fd.Name.Name + "|" + fn.Name()
-				c.Check(fd.Name.Name == "createTag", "R20.3", key, r.Pos(call.Pos()), "go-git mutator inside createTag", fmt.Sprintf("%s calls the repository mutator %s outside createTag, the only function gated by dry-run", fd.Name.Name, fn.Name()))
+				all = all && est
+				break
+			}
+		}
+		return
+	}
+	var dominated func(f fact, pos token.Pos, depth int) bool
+	dominated = func(f fact, pos token.Pos, depth int) bool {
+		fd := enclosing(pos)
+		if fd == nil || depth > 4 {
+			return false
+		}
+		// innermost loop body first, then the function
+		var inner *region
+		for _, rg := range regionsOf(fd) {
+			rg := rg
+			if rg.kind == "loop" && len(rg.list) > 0 && rg.list[0].Pos() <= pos && pos < rg.list[len(rg.list)-1].End() {
+				if inner == nil || rg.list[0].Pos() >= inner.list[0].Pos() {
+					inner = &rg
+				}
+			}
+		}
+		if inner != nil {
+			d := newDTP(p, fd)
+			d.paths = nil
+			d.stmts(seedEnv(d, fd), inner.list, func(q *dtPath) { d.finish(q, "end") })
+			if n, all := throughSite(d.paths, pos, f); n > 0 && all {
+				return true
+			}
+		}
+		if n, all := throughSite(enum(fd), pos, f); n > 0 && all {
+			return true
+		}
+		// the callers
+		fn, _ := info.Defs[fd.Name].(*types.Func)
+		nCallers, allCallers := 0, true
+		for _, g := range decls {
+			ast.Inspect(g.Body, func(n ast.Node) bool {
+				if call, ok := n.(*ast.CallExpr); ok && fn != nil && calleeFunc(info, call) == fn {
+					nCallers++
+					if !dominated(f, call.Pos(), depth+1) {
+						allCallers = false
+					}
+				}
 				return true
 			})
 		}
+		return nCallers > 0 && allCallers
 	}
-	ct := FuncDecl(p, "Tagger.createTag")
-	if ct == nil {
-		c.Fail("R20.3", "createTag|missing", "tools/cmd/tag.go", "createTag not found")
-	} else {
-		c.Func("tools/cmd.Tagger.createTag")
-		d := newDT(info)
-		d.paths = nil
-		d.stmts(seedEnv(d, ct), ct.Body.List, func(q *dtPath) { d.finish(q, "end") })
-		ok := len(d.paths) > 0
-		for _, q := range d.paths {
-			mut := 0
-			firstMut := -1
-			for _, call := range q.Calls {
-				if i := strings.LastIndex(call.Name, ")."); i >= 0 && gitMutators[call.Name[i+2:]] && strings.Contains(call.Name, "go-git") {
-					mut++
-					if firstMut < 0 {
-						firstMut = call.Step
-					}
-				}
+	nMut := 0
+	mutReach := map[*ast.FuncDecl]bool{} // functions that contain a mutator call
+	for _, fd := range decls {
+		fd := fd
+		ast.Inspect(fd.Body, func(n ast.Node) bool {
+			call, ok := n.(*ast.CallExpr)
+			if !ok {
+				return true
 			}
-			loopStep := -1
-			for i, s := range q.Steps {
-				if s == "loop" && loopStep < 0 {
-					loopStep = i
-				}
+			fn := calleeFunc(info, call)
+			if fn == nil || fn.Pkg() == nil || !strings.HasPrefix(fn.Pkg().Path(), "github.com/go-git/go-git") || !gitMutators[fn.Name()] {
+				return true
 			}
-			if firstMut < 0 {
-				firstMut = loopStep
-			} else if loopStep >= 0 && loopStep < firstMut {
-				firstMut = loopStep
+			if fn.Type().(*types.Signature).Recv() == nil {
+				return true
 			}
-			if firstMut < 0 {
-				continue
+			nMut++
+			mutReach[fd] = true
+			c.Func("tools/cmd." + fd.Name.Name)
+			for _, f := range facts {
+				key := "mutator|" + fn.Name() + "|" + f.name
+				c.Check(dominated(f, call.Pos(), 0), "R20.3", key, r.Pos(call.Pos()), fn.Name()+" runs "+f.ok, fmt.Sprintf("%s (in %s) %s", fn.Name(), fd.Name.Name, f.bad))
 			}
-			gated := false
-			for _, a := range q.Atoms {
-				if a.Expr == "RECV.DryRun" && !a.Val && a.Step <= firstMut {
-					gated = true
-				}
-			}
-			if !gated {
-				ok = false
-				c.Fail("R20.3", "createTag|ungated-mutation", r.Pos(ct.Pos()), "createTag reaches repository mutation (delete/create tag) on a path that has not first established DryRun == false: "+q.String())
-			}
-		}
-		// inside the loop no further dry-run dependent exits (the gate is before the loop)
-		for _, rg := range regionsOf(ct) {
-			if rg.kind != "loop" {
-				continue
-			}
-			d2 := newDT(info)
-			d2.paths = nil
-			d2.stmts(seedEnv(d2, ct), rg.list, func(q *dtPath) { d2.finish(q, "end") })
-			for _, q := range d2.paths {
-				if v, has := q.atom("RECV.DryRun"); has && v && len(q.Calls) > 0 {
-					for _, call := range q.Calls {
-						if i := strings.LastIndex(call.Name, ")."); i >= 0 && gitMutators[call.Name[i+2:]] {
-							ok = false
-							c.Fail("R20.3", "createTag|mutation-under-dry-run", r.Pos(call.Pos), "inside the tag loop "+call.Name+" runs on a dry-run path")
-						}
-					}
-				}
-			}
-		}
-		c.Check(ok, "R20.3", "createTag|gate", r.Pos(ct.Pos()), "dry-run returns before anything is deleted or created", "createTag is not gated by DryRun")
+			return true
+		})
 	}
+	c.Check(nMut >= 2, "R20.3", "mutators|found", "tools/cmd/tag.go", fmt.Sprintf("%d mutating go-git calls examined", nMut), "the tag deletion/creation calls were not found in tools/cmd: the gates are not decided")
 	tag := FuncDecl(p, "Tagger.Tag")
 	if tag == nil {
 		c.Fail("R20.3", "Tag|missing", "tools/cmd/tag.go", "Tag not found")
 	} else {
 		c.Func("tools/cmd.Tagger.Tag")
-		d := newDT(info)
-		d.paths = nil
-		d.stmts(seedEnv(d, tag), tag.Body.List, func(q *dtPath) { d.finish(q, "end") })
+		// calls in Tag that lead to a mutator
+		leads := func(name string) bool {
+			for fn, fd := range declOf {
+				if fd == nil || fd.Body == nil || !strings.HasSuffix(name, "."+fn.Name()) && !strings.HasSuffix(name, ")."+fn.Name()) {
+					continue
+				}
+				for _, g := range withCallees(p, fd) {
+					if mutReach[g] {
+						return true
+					}
+				}
+			}
+			return false
+		}
 		nReach := 0
-		okGT, okClean, okErr := true, true, true
-		okNoNew := false
-		for _, q := range d.paths {
-			reach := len(q.CallsTo("Tagger).createTag")) > 0
-			var gt, clean *dtAtom
-			for i := range q.Atoms {
-				a := &q.Atoms[i]
-				if strings.HasSuffix(a.Expr, ".GreaterThan<(github.com/Masterminds/semver/v3.Version).GreaterThan>(RECV.largestTagSemver<(tools/cmd.Tagger).largestTagSemver>(github.com/go-git/go-git/v5.PlainOpen(\".\")#0, github.com/Masterminds/semver/v3.NewVersion(RECV.Version)#0.Major<(github.com/Masterminds/semver/v3.Version).Major>())#0)") || strings.Contains(a.Expr, ".GreaterThan<") {
-					gt = a
-				}
-				if strings.Contains(a.Expr, ".IsClean<(github.com/go-git/go-git/v5.Status).IsClean>()") {
-					clean = a
+		okErr := true
+		okNoNew, badNoNew := false, false
+		for _, q := range enum(tag) {
+			reachStep := -1
+			for _, call := range q.Calls {
+				if leads(call.Name) || strings.Contains(call.Name, "go-git") && gitMutators[call.Name[strings.LastIndex(call.Name, ".")+1:]] {
+					reachStep = call.Step
+					break
 				}
 			}
-			if gt != nil && !gt.Val {
-				if q.Exit == "return" && q.Ret[2] == "ErrNoNewVersion" && !reach {
-					okNoNew = true
-				} else {
-					okGT = false
+			// the path on which the requested version is not greater ends with ErrNoNewVersion and tags nothing
+			for _, a := range q.Atoms {
+				neg := a
+				neg.Val = !a.Val
+				if strictlyGreater(neg) {
+					if q.Exit == "return" && len(q.Ret) == 3 && q.Ret[2] == "ErrNoNewVersion" && reachStep < 0 {
+						okNoNew = true
+					} else {
+						badNoNew = true
+					}
 				}
 			}
-			if !reach {
+			if reachStep < 0 {
 				continue
 			}
 			nReach++
-			if gt == nil || !gt.Val || !strings.HasPrefix(gt.Expr, "github.com/Masterminds/semver/v3.NewVersion(RECV.Version)#0.GreaterThan<") {
-				okGT = false
-			}
-			if clean == nil || !clean.Val {
-				okClean = false
-			}
-			ctStep := q.CallsTo("Tagger).createTag")[0].Step
 			for _, a := range q.Atoms {
-				if a.Err && !a.Val && a.Step <= ctStep {
+				if a.Err && !a.Val && a.Step <= reachStep {
 					okErr = false
 				}
 			}
 		}
-		c.Check(nReach > 0 && okGT && okNoNew, "R20.3", "Tag|strictly-greater-gate", r.Pos(tag.Pos()), "createTag only when requested.GreaterThan(largest existing of the same major); otherwise ErrNoNewVersion", "Tag can reach createTag without the requested version being strictly greater than the largest existing tag of its major (or does not return ErrNoNewVersion then)")
-		c.Check(nReach > 0 && okClean, "R20.3", "Tag|clean-tree-gate", r.Pos(tag.Pos()), "createTag only when worktree.Status().IsClean()", "Tag can reach createTag without go-git's Status.IsClean() having returned true (staged-only changes, for instance, must also block tagging)")
-		c.Check(nReach > 0 && okErr, "R20.3", "Tag|errors-block", r.Pos(tag.Pos()), "no error is swallowed before tagging", "Tag reaches createTag on a path where an earlier step returned an error")
+		c.Check(nReach > 0 && okNoNew && !badNoNew, "R20.3", "Tag|strictly-greater-gate", r.Pos(tag.Pos()), "a version that is not strictly greater ends with ErrNoNewVersion and tags nothing", "Tag does not answer a requested version that is not strictly greater than the largest existing tag with ErrNoNewVersion (and nothing tagged)")
+		c.Check(nReach > 0 && okErr, "R20.3", "Tag|errors-block", r.Pos(tag.Pos()), "no error is swallowed before tagging", "Tag reaches the tagging step on a path where an earlier step returned an error")
 	}
 	// ---- R20.4
 	lt := FuncDecl(p, "Tagger.largestTagSemver")
@@ -400,13 +480,33 @@ R20.6 exit status: ErrNoNewVersion maps to the distinct non-zero code, any other
 			if body == nil {
 				return true
 			}
-			ast.Inspect(body, func(m ast.Node) bool {
-				if call, ok := m.(*ast.CallExpr); ok && strings.HasSuffix(calleeName(info, call), "go-git/v5.Repository).CreateTag") && len(call.Args) == 3 {
-					okNames = elemOK(fct.E(call.Args[0]))
-					okHash = fct.E(call.Args[1]) == "ARG0.Head<(github.com/go-git/go-git/v5.Repository).Head>()#0.Hash<(github.com/go-git/go-git/v5/plumbing.Reference).Hash>()"
-				}
-				return true
-			})
+			const headHash = "ARG0.Head<(github.com/go-git/go-git/v5.Repository).Head>()#0.Hash<(github.com/go-git/go-git/v5/plumbing.Reference).Hash>()"
+			var look func(fc *fcanon, n ast.Node, depth int)
+			look = func(fc *fcanon, n ast.Node, depth int) {
+				ast.Inspect(n, func(m ast.Node) bool {
+					call, ok := m.(*ast.CallExpr)
+					if !ok {
+						return true
+					}
+					if strings.HasSuffix(calleeName(info, call), "go-git/v5.Repository).CreateTag") && len(call.Args) == 3 {
+						okNames = elemOK(fc.E(call.Args[0]))
+						okHash = fc.E(call.Args[1]) == headHash
+						return true
+					}
+					// the creation may sit in a helper the loop calls: seen with the caller's arguments
+					if fn := calleeFunc(info, call); fn != nil && depth < 2 {
+						if g := pkgFuncs(p)[fn]; g != nil && g.Body != nil && !call.Ellipsis.IsValid() && g.Type.Params.NumFields() == len(call.Args) {
+							seed := make([]string, len(call.Args))
+							for i, a := range call.Args {
+								seed[i] = fc.E(a)
+							}
+							look(newFuncCanonSeed(info, g, false, nil, seed), g.Body, depth+1)
+						}
+					}
+					return true
+				})
+			}
+			look(fct, body, 0)
 			return true
 		})
 		// and the version string handed to createTag is the canonical "v" + semver of the requested version
